@@ -124,7 +124,13 @@ FieldRecs == UNION { { [what |-> "field", t |-> fmt.id, field |-> g.name, pushab
 \* GDEF: header 12 or 14 bytes, glyph class definition first; gc = 4 is a format-1 class
 \* definition of 33000 glyphs with alternating classes: 6 + 2*33000 bytes
 GdefRecs == { [r EXCEPT !.mayRefuse = (r.gc = 4 /\ (r.mac # 0 \/ r.sets # 0) /\ 14 + 6 + 2 * 33000 > Max16)] :
-              r \in [what : {"gdef"}, gc : 0..4, mac : 0..2, sets : 0..3, mayRefuse : {FALSE}] }
+              r \in [what : {"gdef"}, gc : 0..8, mac : 0..5, sets : 0..6, mayRefuse : {FALSE}] }
+\* gc 5..8, mac 3..5: class definitions with explicit class-0 entries (all-zero; zeros at glyph 0 and
+\* 65535; zeros below and above the non-zero glyphs; zeros adjacent to the first and last one);
+\* sets 4..6: a nil and an empty set; sets with false values; sets at glyph 0 and 65535.
+\* Normal form for the comparison decoded = original: class-0 entries dropped, a set is its keys.
+\* Kinds "ctx2z", "chain2z", "gpos2_2z": the class definitions of the subtable get explicit class-0
+\* entries below and above, and one of them is replaced by an all-zero table.
 
 \* script list: 2 + 6*ns, per script 4 + 6*nl + one LangSys table (6 + 2*nopt) per language system.
 \* The big lists (11000 optional features per language system) reach beyond 16-bit script offsets.
